@@ -382,7 +382,7 @@ class Gen:
 
     def function(self, sc):
         self.fn_count += 1
-        kind = self.r.randrange(13)
+        kind = self.r.randrange(14)
         name = f"f{self.fn_count}"
         deco = ""
         if self.chance(self.o["decorators"]):
@@ -453,6 +453,23 @@ class Gen:
             else:
                 out.append(f"fn {name}(cb, x) {{ if x > 2 {{ return cb(x - 1) }} return cb(x) + 1 }}")
             self.funcs[name] = (["fn1", "int"], "int")
+        elif kind == 13:        # inliner bait called with effectful arguments, bare and in redundant parentheses
+            self.features.add("inline-effect-arg")
+            t = f"{name}t"
+            out.append(f"let mut {name}c = {self.r.randrange(0, 5)}")
+            out.append(f'fn {t}() {{ print("<{t}>"); {name}c = {name}c + 1; return {name}c }}')
+            body = self.pick(["a + a", "a * a - a", "7", "b - a", "a", "b", "(a + b) * a"])
+            two = "b" in body
+            out.append(f"fn {name}({'a, b' if two else 'a'}) {{ return {body} }}")
+            def arg():
+                inner = f"{t}()"
+                for _ in range(self.r.randrange(0, 3)):
+                    inner = f"({inner})"
+                return inner if self.chance(0.8) else self.pick([f"({t}() + 1)", f"({name}c)", "3"])
+            for _ in range(self.r.randrange(1, 4)):
+                call = f"{name}({arg()}, {arg()})" if two else f"{name}({arg()})"
+                out.append(self.pick([f"println({call})", f"let {name}r = {call}\nprintln({name}r)", f"println({call} + {call})"]))
+            out.append(f"println({name}c)")
         elif kind == 11:        # generic (untyped) comparison / arithmetic on mixed int / float operands
             self.features.add("generic-mixed-cmp")
             op = self.pick(["<", "<=", ">", ">=", "==", "!="])
